@@ -207,10 +207,17 @@ func dirtyDestination(r *run.Rng, dst ivg.Destination, pal [64]color.RGBA) {
 	}
 	dst.SetLOD(float32(r.Range(1, 9)), float32(r.Range(10, 19)))
 	dst.SetLOD(0, float32(r.Range(1000, 2000)))
-	if r.Bool() {
+	switch r.Intn(3) {
+	case 0:
 		dst.StartPath(uint8(r.Intn(7)), 1, 2)
 		dst.AbsQuadTo(3, 4, 5, 6)
 		dst.RelSmoothQuadTo(1, 1)
+	case 1:
+		// the earlier graphic ended in a violation of the calling protocol (a drawing
+		// call outside a path, a register adjustment that does not exist): an Encoder
+		// has latched an error, which the next Reset forgets
+		dst.AbsLineTo(1, 1)
+		dst.SetCReg(9, false, ivg.RGBAColor(color.RGBA{1, 2, 3, 0xff}))
 	}
 }
 
